@@ -4,7 +4,7 @@
    progress + variant give termination of every weakly fair infinite schedule. *)
 From Coq Require Import List ZArith Bool Arith Lia.
 Import ListNotations.
-From GU Require Import C12.Conc C12.MC C12.Model.
+From GU Require Import C12.Conc C12.MC C12.Facts C12.Gen C12.Model.
 
 (* ---------- decidable equalities are sound ---------- *)
 Lemma res_eqb_ok a b : res_eqb a b = true -> a = b.
@@ -15,8 +15,29 @@ Lemma pst_eqb_ok a b : pst_eqb a b = true -> a = b.
 Proof. destruct a, b; simpl; congruence. Qed.
 Lemma own_eqb_ok a b : own_eqb a b = true -> a = b.
 Proof. destruct a, b; simpl; congruence. Qed.
+Lemma ekind_eqb_ok a b : ekind_eqb a b = true -> a = b.
+Proof. destruct a, b; simpl; congruence. Qed.
+Lemma ract_eqb_ok a b : ract_eqb a b = true -> a = b.
+Proof. destruct a, b; simpl; try congruence. intros H; apply ekind_eqb_ok in H; congruence. Qed.
+Lemma xact_eqb_ok a b : xact_eqb a b = true -> a = b.
+Proof. destruct a, b; simpl; congruence. Qed.
+Lemma list_eqb_ok {A} (e : A -> A -> bool) (He : forall x y, e x y = true -> x = y) a b : list_eqb e a b = true -> a = b.
+Proof.
+  revert b; induction a as [|x a IH]; intros [|y b]; simpl; try congruence.
+  destruct (e x y) eqn:E; [|discriminate]. intros H. apply He in E. apply IH in H. congruence.
+Qed.
+Lemma tpc_eqb_ok a b : tpc_eqb a b = true -> a = b.
+Proof.
+  destruct a, b; simpl; try congruence; intros H.
+  - apply (list_eqb_ok ract_eqb ract_eqb_ok) in H. congruence.
+  - apply res_eqb_ok in H. congruence.
+Qed.
+
 Lemma cpc_eqb_ok a b : cpc_eqb a b = true -> a = b.
-Proof. destruct a, b; simpl; try congruence; intros H; apply res_eqb_ok in H; congruence. Qed.
+Proof.
+  destruct a, b; simpl; try congruence; intros H; try (apply res_eqb_ok in H; congruence).
+  apply (list_eqb_ok xact_eqb xact_eqb_ok) in H. congruence.
+Qed.
 Lemma oapc_eqb_ok a b : oapc_eqb a b = true -> a = b.
 Proof. destruct a, b; simpl; try congruence. intros H; apply apc_eqb_ok in H; congruence. Qed.
 Lemma epc_eqb_ok a b : epc_eqb a b = true -> a = b.
@@ -32,10 +53,9 @@ Ltac split_ifs :=
 
 Lemma tstate_eqb_ok a b : tstate_eqb a b = true -> a = b.
 Proof.
-  destruct a as [pc a sw ch fi st se], b as [pc' a' sw' ch' fi' st' se']. unfold tstate_eqb; simpl. intros H. split_ifs.
-  apply apc_eqb_ok in E0. apply Bool.eqb_prop in E1, E2, E3, E4, H.
-  assert (pc = pc') by (destruct pc, pc'; try discriminate; try reflexivity; apply res_eqb_ok in E; congruence).
-  congruence.
+  destruct a, b. unfold tstate_eqb; simpl. intros H. split_ifs.
+  apply tpc_eqb_ok in E. apply apc_eqb_ok in E0. apply Bool.eqb_prop in E1, E2, E3, E4, E5, E6. apply res_eqb_ok in H.
+  subst. reflexivity.
 Qed.
 
 Lemma xstate_eqb_ok a b : xstate_eqb a b = true -> a = b.
@@ -51,7 +71,7 @@ Lemma xlabels_all : forall t, In t xlabels.
 Proof. destruct t; simpl; tauto. Qed.
 
 (* ===================================================================================================== *)
-(** * RunActionWithTimeout *)
+(** * RunActionWithTimeout, instantiated with the GENERATED facts *)
 
 (* what must hold in a state in which the runner has returned r *)
 Definition t_safe (c : acfg) (s : tstate) : bool :=
@@ -68,36 +88,44 @@ Definition t_safe (c : acfg) (s : tstate) : bool :=
   | _ => true
   end.
 
-Definition t_okR (c : acfg) (R : list tstate) : bool :=
-  closed (t_step true c) tstate_eqb tlabels R && mem tstate_eqb t_init R && forallb (t_safe c) R
-  && (if a_wf c then progress_ok (t_step true c) tlabels t_is_done (t_G c) R else true)
-  && variant_ok (t_step true c) tlabels t_rank R.
+Definition t_okR (f : facts) (c : acfg) (R : list tstate) : bool :=
+  closed (t_step f c) tstate_eqb tlabels R && mem tstate_eqb t_init R && forallb (t_safe c) R
+  && (if a_wf c then progress_ok (t_step f c) tlabels t_is_done (t_G c) R else true)
+  && variant_ok (t_step f c) tlabels (t_rank f) R.
 
-Lemma t_ok_all : forall c, t_okR c (t_R true c) = true.
+(* THE proof obligation that depends on the generated facts: recomputed (reachable set, closure, safety, progress,
+   variant) whenever Gen.v changes; it fails e.g. for a stop channel of capacity 0 or a missing `<-channel` *)
+Lemma t_ok_all : forall c, t_okR gen_facts c (t_R gen_facts c) = true.
 Proof. intros [[] [] []]; vm_compute; reflexivity. Qed.
 
 Lemma and5_parts (a b c d e w : bool) :
   a && b && c && (if w then d else true) && e = true -> a = true /\ b = true /\ c = true /\ (w = true -> d = true) /\ e = true.
 Proof. destruct a, b, c, e, w, d; simpl; intros H; try discriminate H; repeat split; auto; discriminate. Qed.
 
-Lemma t_okR_parts c R : t_okR c R = true ->
-  closed (t_step true c) tstate_eqb tlabels R = true /\ mem tstate_eqb t_init R = true
+Lemma t_okR_parts f c R : t_okR f c R = true ->
+  closed (t_step f c) tstate_eqb tlabels R = true /\ mem tstate_eqb t_init R = true
   /\ forallb (t_safe c) R = true
-  /\ (a_wf c = true -> progress_ok (t_step true c) tlabels t_is_done (t_G c) R = true)
-  /\ variant_ok (t_step true c) tlabels t_rank R = true.
+  /\ (a_wf c = true -> progress_ok (t_step f c) tlabels t_is_done (t_G c) R = true)
+  /\ variant_ok (t_step f c) tlabels (t_rank f) R = true.
 Proof. unfold t_okR. apply and5_parts. Qed.
 
-Definition t_ok_parts c := t_okR_parts c (t_R true c) (t_ok_all c).
+Definition t_ok_parts c := t_okR_parts gen_facts c (t_R gen_facts c) (t_ok_all c).
 
-Lemma t_safe_run c sched : t_safe c (run (t_step true c) t_init sched) = true.
+Lemma t_safe_run c sched : t_safe c (run (t_step gen_facts c) t_init sched) = true.
 Proof.
   destruct (t_ok_parts c) as (Hc & H0 & Hs & _).
-  exact (safe_run (t_step true c) tstate_eqb tstate_eqb_ok tlabels tlabels_all _ (t_safe c) t_init Hc H0 Hs sched).
+  exact (safe_run (t_step gen_facts c) tstate_eqb tstate_eqb_ok tlabels tlabels_all _ (t_safe c) t_init Hc H0 Hs sched).
 Qed.
+
+Ltac bool_hyps :=
+  repeat match goal with
+         | H : _ && _ = true |- _ => apply andb_true_iff in H; destruct H
+         | H : negb _ = true |- _ => apply negb_true_iff in H
+         end.
 
 (* the readable form of [t_safe] *)
 Lemma t_result_l : forall c sched r,
-  let s := run (t_step true c) t_init sched in
+  let s := run (t_step gen_facts c) t_init sched in
   t_pc s = TDone r ->
   t_a s = ASent /\
   (r = res_of (a_out c) /\ t_sent s = false \/ r = RTimeout /\ t_fired s = true /\ t_sent s = true) /\
@@ -107,33 +135,36 @@ Lemma t_result_l : forall c sched r,
 Proof.
   intros c sched r s Hpc. pose proof (t_safe_run c sched) as H. fold s in H.
   unfold t_safe in H. rewrite Hpc in H.
-  destruct s as [pc a sw ch fi st se]; simpl in *.
-  destruct c as [o lk ow]; simpl in *.
-  destruct a, ch, r, o, fi, se, ow, sw; simpl in H; try discriminate H;
-    repeat split; try tauto; try congruence; intros; try discriminate; auto.
+  apply andb_true_iff in H. destruct H as [H Hcl]. apply andb_true_iff in H. destruct H as [H Hres].
+  apply andb_true_iff in H. destruct H as [Ha _]. apply apc_eqb_ok in Ha.
+  split; [exact Ha|]. split.
+  - apply orb_true_iff in Hres. destruct Hres as [Q|Q]; bool_hyps.
+    + left. split; [now apply res_eqb_ok|assumption].
+    + right. repeat split; auto. now apply res_eqb_ok.
+  - split; [|split]; intros E; rewrite E in Hcl; bool_hyps; try split; auto using res_eqb_ok.
 Qed.
 
 Lemma t_no_deadlock_l : forall c, a_wf c = true -> forall sched,
-  let s := run (t_step true c) t_init sched in
-  t_is_done s = false -> exists t, t_G c s t = true /\ t_step true c s t <> None.
+  let s := run (t_step gen_facts c) t_init sched in
+  t_is_done s = false -> exists t, t_G c s t = true /\ t_step gen_facts c s t <> None.
 Proof.
   intros c W sched s Hd. destruct (t_ok_parts c) as (Hc & H0 & _ & Hp & _).
-  exact (mc_no_deadlock (t_step true c) tstate_eqb tstate_eqb_ok tlabels tlabels_all t_is_done (t_G c) _ t_init Hc H0 (Hp W) sched Hd).
+  exact (mc_no_deadlock (t_step gen_facts c) tstate_eqb tstate_eqb_ok tlabels tlabels_all t_is_done (t_G c) _ t_init Hc H0 (Hp W) sched Hd).
 Qed.
 
 Lemma t_terminates_l : forall c, a_wf c = true -> forall sigma,
-  weakly_fair (t_step true c) (t_G c) t_init sigma ->
-  exists k, t_is_done (state_at (t_step true c) t_init sigma k) = true.
+  weakly_fair (t_step gen_facts c) (t_G c) t_init sigma ->
+  exists k, t_is_done (state_at (t_step gen_facts c) t_init sigma k) = true.
 Proof.
   intros c W sigma Hf. destruct (t_ok_parts c) as (Hc & H0 & _ & Hp & Hv).
-  exact (mc_fair_terminates (t_step true c) tstate_eqb tstate_eqb_ok tlabels tlabels_all t_is_done (t_G c) t_rank _ t_init
+  exact (mc_fair_terminates (t_step gen_facts c) tstate_eqb tstate_eqb_ok tlabels tlabels_all t_is_done (t_G c) (t_rank gen_facts) _ t_init
            Hc H0 (Hp W) Hv sigma Hf).
 Qed.
 
-Lemma t_steps_bounded_l : forall c sched, effective (t_step true c) t_init sched <= 7.
+Lemma t_steps_bounded_l : forall c sched, effective (t_step gen_facts c) t_init sched <= t_rank gen_facts t_init.
 Proof.
   intros c sched. destruct (t_ok_parts c) as (Hc & H0 & _ & _ & Hv).
-  exact (mc_steps_bounded (t_step true c) tstate_eqb tstate_eqb_ok tlabels tlabels_all t_rank _ t_init Hc H0 Hv sched).
+  exact (mc_steps_bounded (t_step gen_facts c) tstate_eqb tstate_eqb_ok tlabels tlabels_all (t_rank gen_facts) _ t_init Hc H0 Hv sched).
 Qed.
 
 (* completeness of the allowed-observation sets used by the correspondence: the observation of EVERY schedule that
@@ -145,31 +176,23 @@ Proof.
 Qed.
 
 Lemma t_allowed_complete c sched :
-  (forall t, t_step true c (run (t_step true c) t_init sched) t = None) ->
-  In (t_observe (run (t_step true c) t_init sched)) (t_allowed true c).
+  (forall t, t_step gen_facts c (run (t_step gen_facts c) t_init sched) t = None) ->
+  In (t_observe (run (t_step gen_facts c) t_init sched)) (t_allowed gen_facts c).
 Proof.
   intros Hq. destruct (t_ok_parts c) as (Hc & H0 & _).
   unfold t_allowed. apply in_map. apply filter_In. split; [|now apply quiescentb_spec].
-  apply (closed_run (t_step true c) tstate_eqb tstate_eqb_ok tlabels tlabels_all _ Hc sched t_init).
+  apply (closed_run (t_step gen_facts c) tstate_eqb tstate_eqb_ok tlabels tlabels_all _ Hc sched t_init).
   now apply (mem_In tstate_eqb tstate_eqb_ok).
 Qed.
 
-(* The code BEFORE the fix (unbuffered stop channel): a schedule after which nothing can move and the runner has not
-   returned.  The action is far after the deadline and never reads the stop channel. *)
+(* The same code with an UNBUFFERED stop channel (as it was before the fix of D5): a schedule after which nothing can
+   move and the runner has not returned.  The action is far after the deadline and never reads the stop channel. *)
 Lemma t_unbuffered_deadlock_l :
+  let f := set_stop_cap 0 gen_facts in
   exists c sched, a_wf c = true /\
-    (forall t, t_step false c (run (t_step false c) t_init sched) t = None) /\
-    t_is_done (run (t_step false c) t_init sched) = false.
+    (forall t, t_step f c (run (t_step f c) t_init sched) t = None) /\
+    t_is_done (run (t_step f c) t_init sched) = false.
 Proof.
   exists (mkA ONil false Late), [LTimer; LTimeout; LRet; LSend]. split; [reflexivity|]. split; [|reflexivity].
   intros t; destruct t; reflexivity.
-Qed.
-
-(* ... and also when it completes by itself right at the deadline while it WOULD look at the signal otherwise *)
-Lemma t_unbuffered_deadlock_near_l :
-  exists sched,
-    (forall t, t_step false (mkA ONil true Near) (run (t_step false (mkA ONil true Near)) t_init sched) t = None) /\
-    t_is_done (run (t_step false (mkA ONil true Near)) t_init sched) = false.
-Proof.
-  exists [LTimer; LRet; LTimeout; LSend]. split; [|reflexivity]. intros t; destruct t; reflexivity.
 Qed.
